@@ -56,12 +56,21 @@ def execute(progs, keys, choices=None, rng=None, max_steps=4000):
                 raise
 
         def join(self):
+            joining.add(s.me().idx)
             log.append(("joinbegin", s.me().idx))
             super().join()
+            joining.discard(s.me().idx)
             log.append(("joinend", s.me().idx, real_dump(self, keys)))
+    joining = set()
     q = ObsQueue()
     lockname = q._lock.name
     dlockname = q._dlock.name
+
+    def hook(ev):
+        if ev[0] == "acq" and ev[2] == lockname and ev[1] in joining:
+            log.append(("joincheck", ev[1], q._total_queued, q._total_inprogress,
+                        sum(len(f) for f in q._fifos.values()), sum(q._inprogress_counts.values())))
+    s.on_event = hook
     delivered = []
 
     def mk(tid, prog):
@@ -238,6 +247,14 @@ def oracle(run):
         exp_prefix = [i for i in ids if i in got]
         if got != exp_prefix:
             probs.append(f"FIFO {key}: items put in order {ids} were delivered in order {got}")
+    last_check = {}
+    for ev in run["log"]:
+        if ev[0] == "joincheck":
+            last_check[ev[1]] = ev
+        elif ev[0] == "joinend":
+            c = last_check.get(ev[1])
+            if c is not None and (c[4] != 0 or c[5] != 0):
+                probs.append(f"join returned although, when it last held the queue lock, {c[4]} items were queued and {c[5]} in progress")
     if run["result"] == "deadlock":
         probs.append(f"deadlock: {run['blocked']}")
     return probs
